@@ -107,6 +107,7 @@ def alphabet(rad: tuple, level: str, max_arity: int = 3) -> list:
         cat = c19_catalogue([rad[q] for q in loc],
                             'full' if level == 'rot' else level)
         if level == 'rot':
+            cat = [c for c in cat if 'VariableUnitaryGate' not in c]
             out.append((cat[(li * 5 + len(rad)) % len(cat)], loc))
         else:
             out += [(s, loc) for s in cat]
@@ -247,6 +248,11 @@ def _job_cost(job: dict) -> dict:
             ]}
             P = sum(len(o[2]) for o in case['ops'])
             extra = [[v] * P for v in g] if job.get('grid') and P else []
+            if any('VariableUnitaryGate' in json.dumps(o[0])
+                   for o in case['ops']):
+                # all-equal parameters are a singular matrix: "the closest
+                # unitary" is not unique there, nothing to compare
+                extra = []
             found, label = judge_cost(case, tspecs, extra, broken)
             if job.get('stale') and L == 1:
                 found += _stale_structure(case)
@@ -424,6 +430,10 @@ INST_TARGETS = [['u', 'own', 0.7], ['u', 'generic'], ['s', 'generic'],
                 ['sys', 1, 'basis', 'generic', 0.0]]
 
 
+QUICK_INST_TARGETS = [INST_TARGETS[0], INST_TARGETS[1], INST_TARGETS[2],
+                      INST_TARGETS[4]]
+
+
 def inst_items(seed: int, thorough: bool) -> list:
     from bqskit.ir.opt.instantiaters import Minimization, QFactor
     items = []
@@ -436,7 +446,7 @@ def inst_items(seed: int, thorough: bool) -> list:
         qf_ok = QFactor.is_capable(c) and not any(
             o[0][0] == 'lib' and o[0][1] in NATIVE_NAMES for o in case['ops']
         )
-        for tspec in (INST_TARGETS if thorough else INST_TARGETS[:5]):
+        for tspec in (INST_TARGETS if thorough else QUICK_INST_TARGETS):
             for config in CONFIGS:
                 is_qf = config.startswith('qfactor')
                 if is_qf and (not qf_ok or tspec[0] != 'u'):
@@ -446,15 +456,20 @@ def inst_items(seed: int, thorough: bool) -> list:
                 if config == 'default' and not (min_ok or (
                         qf_ok and tspec[0] == 'u')):
                     continue
-                starts = (1, 2, 4, 8)
+                starts: tuple = (1, 2, 4, 8)
+                if not thorough:
+                    if config == 'minimization-lbfgs':
+                        starts = (1, 4)
+                    elif config.endswith('-instance'):
+                        starts = (2, 8)
                 if config == 'minimization-scipy':
-                    if name in ('wide', 'nested', 'qutrits'):
+                    if name in ('wide', 'nested', 'qutrits', 'mixed'):
                         continue
                     starts = (1, 2, 4, 8) if thorough else (1, 4)
                 for n in starts:
                     items.append([case, tspec, config, n, 'inplace'])
-                if config in ('minimization-ceres', 'qfactor',
-                              'minimization-lbfgs') or (
+                if config in ('minimization-ceres', 'qfactor') or (
+                        thorough and config == 'minimization-lbfgs') or (
                         config == 'default' and not min_ok):
                     for n in ((2, 4) if not thorough else (1, 2, 4, 8)):
                         items.append([case, tspec, config, n, 'async'])
@@ -483,17 +498,15 @@ def plan(ctx: Ctx, broken: dict) -> list[dict]:
         for rad in radix_tuples(1):
             cost(rad, 1, 'full', DEFAULT_TARGETS, 2, grid=True, stale=True)
         for rad in radix_tuples(2):
-            cost(rad, 1, 'full', DEFAULT_TARGETS, 2, stale=True)
+            cost(rad, 1, 'full', DEFAULT_TARGETS if rad in QUICK_W2_FULL
+                 else SHORT_TARGETS, 2, stale=True)
+        jobs += inst_jobs[: len(inst_jobs) // 2]
         for rad in QUICK_W3:
             cost(rad, 1, 'full', SHORT_TARGETS, 4)
-        jobs += inst_jobs[: len(inst_jobs) // 2]
         for rad in ((2, 2), (2, 3), (3, 2)):
             cost(rad, 2, 'rot', SHORT_TARGETS, 4)
         jobs += inst_jobs[len(inst_jobs) // 2:]
-        cost((2, 3, 2), 2, 'rot', SHORT_TARGETS, 8)
-        cost((2, 3), 3, 'rot', SHORT_TARGETS, 4)
-        for rad in ((3, 3), (2, 4), (4, 3)):
-            cost(rad, 2, 'rot', SHORT_TARGETS, 4)
+        cost((2, 3, 2), 2, 'rot', SHORT_TARGETS, 4, 2)
     else:
         for w in (1, 2):
             for rad in radix_tuples(w):
@@ -516,7 +529,8 @@ def plan(ctx: Ctx, broken: dict) -> list[dict]:
     return jobs
 
 
-QUICK_W3 = [(2, 2, 2), (2, 3, 4), (3, 2, 2), (4, 2, 3)]
+QUICK_W3 = [(2, 3, 4), (3, 2, 2)]
+QUICK_W2_FULL = [(2, 2), (2, 3), (3, 3)]
 
 
 def run(ctx: Ctx) -> None:
